@@ -378,8 +378,16 @@ func vhC19(a []int, twin bool) {
 	// gives what loading it into a fresh Key gives
 	if err == nil {
 		second, spair := vChoice("second-kind", vkCount), vChoice("second-pair", 2)
+		// the caller may do what he likes with the key he was handed (here: reorder its algorithm list in
+		// place) - keys loaded afterwards are not affected
+		if vBool("caller-edits-the-loaded-key") && len(k.KeyIDHashAlgorithms) == 2 {
+			k.KeyIDHashAlgorithms[0], k.KeyIDHashAlgorithms[1] = k.KeyIDHashAlgorithms[1], k.KeyIDHashAlgorithms[0]
+		}
 		var fresh Key
 		ferr := fresh.LoadKeyReaderDefaults(strings.NewReader(vhKindPem(second, spair)))
+		if second != vkParamsThenSec1 {
+			vhCheckLoaded(fresh, ferr, second, spair)
+		}
 		rerr := k.LoadKeyReaderDefaults(strings.NewReader(vhKindPem(second, spair)))
 		vAssert("C19.reload-verdict-like-fresh-load", (ferr == nil) == (rerr == nil))
 		if ferr == nil && rerr == nil {
